@@ -8,6 +8,23 @@ hypotheses are on the DENOTATIONS only (`Generic3`: off the z axis, off the plan
 subexpression), and the storage hypotheses of every intermediate call are DERIVED: the stored coordinates of a result
 are in range by `Props/CanonClosed.lean`, and a stored vector in range with a generic denotation satisfies every
 storage hypothesis (`generic_storage_ok`).
+
+Contents
+* §1–8   3D: language `E3` (var, add, sub, scale, neg, rotateZ/X/Y, cross, unit, the six `to_<system>`), model `evalM`
+         (every node is `VG.call evR K A "<name>" …` / `VG.operator … "neg"`), specification `evalS` (Cartesian lists only),
+         `Generic3`, `GenericAll`, invariant `Good3` (= well-formed 3D + `StoredInRange` + not stored at a pole),
+         bridge `generic_storage_ok`, one lemma per node (`add_case` …), MAIN THEOREM `c01e_eval3`.
+* §9     COROLLARY `c01e_indep3` / `c01e_indep3_eq`: same denotations in ⟹ same denotation out.
+* §10    scalar expressions `S3` (x y z rho rho2 phi eta theta costheta cottheta mag mag2; dot deltaphi deltaeta deltaR2
+         deltaR deltaangle): `c01e_evalS3`, `c01e_indepS3`.
+* §11    non-vacuity: `exE_generic` (depth 5, (x,y,z) + (x,y,θ) + (ρ,φ,η) variables, mixed backends/flavors).
+* §12    2D: `E2`, `c01e_eval2`, `c01e_indep2` — genericity needed ONLY for the operand of `unit`.
+* §13    4D: `E4` (var, add, sub, scale, rotateZ/X/Y, boostX/Y/Z(beta), boost_p4, unit, the twelve `to_<system>`),
+         `Generic4` (spatial part generic, forward time-like), `c01e_eval4`, `c01e_indep4`; scalars `S4`
+         (the 3D ones + t t2 tau tau2 beta gamma rapidity; Minkowski `dot`): `c01e_evalS4`, `c01e_indepS4`; `exE4_generic`.
+* §14    ONE language `E` for all dimensions with the dimension-changing nodes (`to_Vector2D/3D`, `to_Vector3D(z/theta/eta=)`,
+         `to_Vector4D(t/tau=)`, `boost_beta3`): `c01e_eval`, `c01e_indep`, scalars `c01e_evalSU`, `c01e_indepSU`, `exEU_generic`.
+* §15    FINDING `c01e_phi_jump`: `v.rotateZ(0).phi` is `-π` for `(ρ, φ) = (1, π)` and `+π` for `(x, y) = (-1, 0)`.
 -/
 import VectorModel.Props.C01Method
 import VectorModel.Props.MethodBin
@@ -2692,6 +2709,51 @@ example : GenericSU exSpecU (.un .tau exEU) ∧ GenericSU exSpecU (.bi .deltaphi
   · simp only [GenericSU, GenericAllU, evalSU, exSpecU, List.take, generic_iff2, generic_iff4, List.length_cons,
       List.length_nil]
     norm_num
+
+/-! ## 15. FINDING: `phi` is NOT coordinate independent on the half line `y = 0, x < 0` (why `PhiOK` is needed)
+
+The operations produce polar azimuths through `rectify`, i.e. in `[-π, π)`; the accessor `phi` of a Cartesian vector uses
+`arctan2`, i.e. `(-π, π]`.  For the SAME geometric vector `(-1, 0)`, stored as `(ρ, φ) = (1, π)` resp. `(x, y) = (-1, 0)`
+— both inside the documented ranges —, the expression `v.rotateZ(0).phi` evaluates to `-π` resp. `+π`. -/
+theorem c01e_phi_jump (K : Consts ℝ) (A : Arith ℝ) :
+    ∃ ρ₁ ρ₂ : Nat → Vec ℝ, (∀ i, Good (ρ₁ i)) ∧ (∀ i, Good (ρ₂ i)) ∧ (∀ i, denote (ρ₁ i) = denote (ρ₂ i)) ∧
+      GenericAllU (specEnv ρ₁) (.rotateZ 0 (.var 0)) ∧
+      evalMSU K A ρ₁ (.un (.sp .phi) (.rotateZ 0 (.var 0))) = .ok (.scalar (-π)) ∧
+      evalMSU K A ρ₂ (.un (.sp .phi) (.rotateZ 0 (.var 0))) = .ok (.scalar π) ∧ (-π : ℝ) ≠ π := by
+  have hpi := pi_pos
+  have hd1 : denote (C11M.V2 .obj false .rhophi 1 π) = some [-1, 0] := by
+    simp only [denote, xOf, yOf, cos_pi, sin_pi, mul_zero, mul_neg, mul_one]
+  have hd2 : denote (C11M.V2 .obj false .xy (-1) 0) = some [-1, 0] := rfl
+  have hg1 : Good (C11M.V2 .obj false .rhophi 1 π) := good_of2 (good2_mk _ _ _ _ _ ⟨by norm_num, by linarith, le_rfl⟩)
+  have hg2 : Good (C11M.V2 .obj false .xy (-1) 0) := good_of2 (good2_mk _ _ _ _ _ trivial)
+  have hs : specEnv (fun _ => C11M.V2 .obj false .rhophi 1 π) = fun _ => [-1, 0] := by
+    funext i; simp only [specEnv, hd1, Option.getD_some]
+  have hatan : P.arctan2 0 (-1) = π := by
+    have h := L.arctan2_polar (r := 1) (p := π) one_pos (by linarith) le_rfl
+    simpa [sin_pi, cos_pi] using h
+  refine ⟨fun _ => C11M.V2 .obj false .rhophi 1 π, fun _ => C11M.V2 .obj false .xy (-1) 0, fun _ => hg1, fun _ => hg2,
+    fun _ => by rw [hd1, hd2], ?_, ?_, ?_, by linarith⟩
+  · rw [hs]
+    simp only [GenericAllU, evalSU, onPlanar, rotZ2, cos_zero, sin_zero, generic_iff2]
+    norm_num
+  · have e1 : call evR K A "rotateZ" (C11M.V2 .obj false .rhophi 1 π) [.sc 0] =
+        .ok (.vec (C11M.V2 .obj false .rhophi 1 (-π))) := by
+      rw [rotateZ_eval2, c13c_planar_rotateZ_pi]
+    have e2 : call evR K A "phi" (C11M.V2 .obj false .rhophi 1 (-π)) [] = .ok (.scalar (-π)) := by
+      rw [acc_phi_eval K A _ ⟨by simp, rfl⟩]; rfl
+    simp only [evalMSU, evalMU, un, unS, e1, vecOf]
+    exact e2
+  · have h0 : planar_rotateZ.eval .xy 0 (-1) 0 = (-1, 0) := by
+      simp only [planar_rotateZ.eval, planar_rotateZ.xy, cos_zero, sin_zero]; norm_num
+    have e1 : call evR K A "rotateZ" (C11M.V2 .obj false .xy (-1) 0) [.sc 0] =
+        .ok (.vec (C11M.V2 .obj false .xy (-1) 0)) := by
+      rw [rotateZ_eval2, h0]
+    have e2 : call evR K A "phi" (C11M.V2 .obj false .xy (-1) 0) [] = .ok (.scalar π) := by
+      rw [acc_phi_eval K A _ ⟨by simp, rfl⟩]
+      show Except.ok (Res.scalar (P.arctan2 0 (-1))) = _
+      rw [hatan]
+    simp only [evalMSU, evalMU, un, unS, e1, vecOf]
+    exact e2
 
 end C01E
 end VR
